@@ -16,10 +16,12 @@ EXTENDS Naturals, Sequences, FiniteSets, TLC, Json
 Inner == {"none", "badsig", "unsigned", "expired", "notyet", "audience", "solicit", "recipient", "forged_after_signing"}
 Keys  == {"matchFirst", "matchSecond", "none"}
 \* companion: the response also carries a plain, valid (and validly signed) assertion next to the encrypted one
+\* spKey: the SP publishes its encryption certificate with use="encryption", or one certificate without a use attribute
+\* (good for signing and encryption alike) -- either way it has an encryption certificate
 Scn == [producer : {"idp"}, signResp : BOOLEAN, signAssert : BOOLEAN, advice : BOOLEAN, selfContained : BOOLEAN,
-        pefim : BOOLEAN, keys : Keys, inner : {"none"}, wantAssert : BOOLEAN, companion : {FALSE}]
+        pefim : BOOLEAN, keys : Keys, inner : {"none"}, wantAssert : BOOLEAN, companion : {FALSE}, spKey : {"labelled", "unlabelled"}]
        \cup [producer : {"attacker"}, signResp : {FALSE}, signAssert : {TRUE}, advice : {FALSE}, selfContained : {TRUE},
-             pefim : {FALSE}, keys : Keys, inner : Inner, wantAssert : BOOLEAN, companion : BOOLEAN]
+             pefim : {FALSE}, keys : Keys, inner : Inner, wantAssert : BOOLEAN, companion : BOOLEAN, spKey : {"labelled"}]
 
 VARIABLES scn, pc, plain, sigChecked, verdict
 vars == <<scn, pc, plain, sigChecked, verdict>>
